@@ -890,9 +890,11 @@ func (dc *driverContextContextual) transition(driver stateTableDriver, entry tab
 		hasRep                  bool
 		markIndex, currentIndex = entry.AsMorxContextual()
 	)
-	if markIndex != 0xFFFF {
-		lookup := dc.table.Substitutions[markIndex]
-		replacement, hasRep = lookup.Class(gID(buffer.Info[dc.mark].Glyph))
+	// an invalid font may refer to a missing substitution table, or set the mark at the end of text
+	if int(markIndex) < len(dc.table.Substitutions) && dc.mark < len(buffer.Info) {
+		if lookup := dc.table.Substitutions[markIndex]; lookup != nil {
+			replacement, hasRep = lookup.Class(gID(buffer.Info[dc.mark].Glyph))
+		}
 	}
 	if hasRep {
 		buffer.unsafeToBreak(dc.mark, min(buffer.idx+1, len(buffer.Info)))
@@ -905,9 +907,10 @@ func (dc *driverContextContextual) transition(driver stateTableDriver, entry tab
 
 	hasRep = false
 	idx := min(buffer.idx, len(buffer.Info)-1)
-	if currentIndex != 0xFFFF {
-		lookup := dc.table.Substitutions[currentIndex]
-		replacement, hasRep = lookup.Class(gID(buffer.Info[idx].Glyph))
+	if int(currentIndex) < len(dc.table.Substitutions) && idx >= 0 {
+		if lookup := dc.table.Substitutions[currentIndex]; lookup != nil {
+			replacement, hasRep = lookup.Class(gID(buffer.Info[idx].Glyph))
+		}
 	}
 
 	if hasRep {
@@ -976,6 +979,9 @@ func (dc *driverContextLigature) transition(driver stateTableDriver, entry table
 		cursor := dc.matchLength
 
 		actionIdx := entry.AsMorxLigature()
+		if int(actionIdx) > len(dc.table.LigatureAction) { // invalid font
+			return
+		}
 		actionData := dc.table.LigatureAction[actionIdx:]
 
 		ligatureIdx := 0
@@ -1008,7 +1014,7 @@ func (dc *driverContextLigature) transition(driver stateTableDriver, entry table
 			}
 			offset := int32(uoffset)
 			componentIdx := int32(buffer.cur(0).Glyph) + offset
-			if int(componentIdx) >= len(dc.table.Components) {
+			if componentIdx < 0 || int(componentIdx) >= len(dc.table.Components) {
 				break
 			}
 			componentData := dc.table.Components[componentIdx]
@@ -1134,7 +1140,12 @@ func (dc *driverContextInsertion) transition(driver stateTableDriver, entry tabl
 			return
 		}
 		start := markedInsertIndex
-		glyphs := dc.insertionAction[start:]
+		var glyphs []GID
+		if int(start)+count > len(dc.insertionAction) { // invalid font: insert nothing
+			count = 0
+		} else {
+			glyphs = dc.insertionAction[start:]
+		}
 
 		before := flags&miMarkedInsertBefore != 0
 
@@ -1168,7 +1179,12 @@ func (dc *driverContextInsertion) transition(driver stateTableDriver, entry tabl
 		}
 		buffer.maxOps -= count
 		start := currentInsertIndex
-		glyphs := dc.insertionAction[start:]
+		var glyphs []GID
+		if int(start)+count > len(dc.insertionAction) { // invalid font: insert nothing
+			count = 0
+		} else {
+			glyphs = dc.insertionAction[start:]
+		}
 
 		before := flags&miCurrentInsertBefore != 0
 
